@@ -197,6 +197,8 @@ def path_bbox_is_union(c, kinds):
     xmin, xmax, ymin, ymax = c.items(c.callm(path, 'bbox'))
     n = len(segs)
     c.ensures('every-segment-box-consulted', sorted(boxes) == list(range(n)))
+    if sorted(boxes) != list(range(n)):
+        return
     for i in range(n):
         b = boxes[i]
         c.ensures('contains-box-of-segment-%d' % i, ops.And(ops.le(xmin, b[0]), ops.le(b[1], xmax), ops.le(ymin, b[2]), ops.le(b[3], ymax)))
